@@ -11,7 +11,7 @@ opaque leaves), every value and both set-iteration orders.
 * `C06_deterministic`          : the verdict does not depend on the build / hash-set order of the matchers
 * `C06_setwise`                : `MatchesSetwise` matches iff a one-to-one pairing of values and matchers exists
 * `C06_pure_deterministic`     : same object, same verdict; nothing is modified (by construction of the model)
-* `C06_spec_not/all/any/allMatch/transparent`, `C06_sameMembers_perm`, `C06_spec_setwise_assignment` :
+* `C06_spec_not/all/any/allMatch/transparent`, `C06_sameMembers_perm`, `C06_keysEqual_perm`, `C06_spec_setwise_assignment` :
   what the specification says, as plain propositions (negation, ∧, ∨, ∀, ∃, `List.Perm`, ∃ one-to-one assignment)
 * `C06_setwise_regression`     : the input that exhibited the repaired defect D5 (greedy pairing) matches in both builds
 * `holds_model`                : the executable spec holds of the model's trace, for every input
@@ -27,6 +27,7 @@ theorem veq_iff : ∀ a b : V, veq a b = true ↔ a = b
   | .bytes a, b => by cases b <;> simp [veq]
   | .none, b => by cases b <;> simp [veq]
   | .list a, b => by cases b <;> simp [veq, veqL_iff a]
+  | .tuple a, b => by cases b <;> simp [veq, veqL_iff a]
   | .dict ka va, b => by cases b <;> simp [veq, veqL_iff va]
   | .obj t ka va, b => by cases b <;> simp [veq, veqL_iff va, and_assoc]
   | .exc e i, b => by cases b <;> simp [veq]
@@ -293,7 +294,7 @@ theorem setwise_sound (sel : Bool) (ms : List M) (v : V) (s : Verdict)
     simp only [hnr, List.map_map, Function.comp_def, hisM]
     rw [hmat]
 
-theorem keyCond_eq (kind : DictKind) (ks oks : List Nat) :
+theorem keyCond_eq (kind : DictKind) (ks oks : List Key) :
     keyCond kind ks oks = !(match kind with
       | .exact => oks.any (fun k => !ks.contains k) || ks.any (fun k => !oks.contains k)
       | .contains => ks.any (fun k => !oks.contains k)
@@ -321,7 +322,14 @@ theorem sound (sel : Bool) : ∀ (m : M) (v : V) (s : Verdict),
       · rename_i hm
         simp only [Bool.not_eq_true] at hm
         simp_all
-    · split <;> simp_all
+    · simp at h
+    · rename_i h1 h2
+      simp only [Option.some.injEq] at h
+      subst h
+      split
+      · rename_i e; exact absurd rfl (h1 e)
+      · rename_i xs; exact absurd rfl (h2 xs)
+      · rfl
   | .raises em, v, s, h => by
     simp only [spec] at h
     simp only [matchImpl]
@@ -593,7 +601,7 @@ theorem C06_spec_listwise (fo : Bool) (ms : List M) (v : V) (xs : List V) (hv : 
     exact h2 p hp
 
 /-- `MatchesDict` / `ContainsDict` / `ContainedByDict`: exact / super / sub key sets. -/
-theorem C06_spec_dict_keys (kind : DictKind) (ks oks : List Nat) :
+theorem C06_spec_dict_keys (kind : DictKind) (ks oks : List Key) :
     keyCond kind ks oks = true ↔
       (match kind with
        | .exact => (∀ k ∈ ks, k ∈ oks) ∧ (∀ k ∈ oks, k ∈ ks)
@@ -602,11 +610,28 @@ theorem C06_spec_dict_keys (kind : DictKind) (ks oks : List Nat) :
   cases kind <;> simp [keyCond, subsetB]
 
 /-- … with per-key matchers on the common keys. -/
-theorem C06_spec_dict (kind : DictKind) (ks : List Nat) (ms : List M) (oks : List Nat) (ovs : List V)
+theorem C06_spec_dict (kind : DictKind) (ks : List Key) (ms : List M) (oks : List Key) (ovs : List V)
     (bs : List Bool) (hlen : ks.length = ms.length)
-    (hparts : bools (specZip ms (ks.map fun k => lookupKey k oks ovs)) = some bs) :
+    (hparts : bools (specZip ms (ks.map fun k => lookupK k oks ovs)) = some bs) :
     spec (.dict kind ks ms) (.dict oks ovs) = some (.ofBool (keyCond kind ks oks && bs.all id)) := by
   simp [spec, hlen, hparts]
+
+/-- `KeysEqual`: the keys of the dict are exactly the expected keys (as multisets — no order on the keys is
+needed, they may be of types that cannot be compared with each other). -/
+theorem C06_keysEqual_perm (sel : Bool) (ks oks : List Key) (ovs : List V) :
+    matchImpl sel (.leaf (.keysEqual ks)) (.dict oks ovs) = .match ↔ ks.Perm oks := by
+  simp only [matchImpl, leafImpl, sameKeys]
+  rw [List.perm_iff_count]
+  have : ((ks ++ oks).all fun k => ks.count k == oks.count k) = true ↔ ∀ k, ks.count k = oks.count k := by
+    simp only [List.all_eq_true, beq_iff_eq]
+    constructor
+    · intro h k
+      by_cases hk : k ∈ ks ++ oks
+      · exact h k hk
+      · simp only [List.mem_append, not_or] at hk
+        rw [List.count_eq_zero_of_not_mem hk.1, List.count_eq_zero_of_not_mem hk.2]
+    · intro h k _; exact h k
+  cases hb : ((ks ++ oks).all fun k => ks.count k == oks.count k) <;> simp_all [Verdict.ofBool]
 
 /-- `SameMembers`: the matchee is a permutation of the expected list (same members, same repetitions). -/
 theorem C06_sameMembers_perm (sel : Bool) (e xs : List V) :
@@ -683,6 +708,10 @@ example : spec (.setwise [0, 1] [1, 0] [.leaf (.equals (.int 1)), .leaf .never])
 -- a nested expression inside the domain with verdict mismatch; and a value outside the domain
 example : spec (.all false [.leaf (.lessThan (.int 3)), .not (.leaf (.equals (.int 2)))]) (.int 2) = some .mismatch := by decide
 example : spec (.leaf (.lessThan (.int 3))) (.str [97]) = none := by decide
+-- dict matchers over keys that cannot be ordered with each other (1, 'a', None, b'k', (1, 2))
+example : spec (.dict .exact [.none, .int 1, .str 0] [.leaf .always, .leaf (.equals (.int 5)), .leaf .never])
+    (.dict [.int 1, .str 0, .tup [1, 2]] [.int 5, .int 0, .none]) = some .mismatch := by decide
+example : matchImpl true (.leaf (.keysEqual [.str 0, .int 1])) (.dict [.int 1, .str 0] [.int 0, .int 0]) = .match := by decide
 -- the propagate rule of Raises
 example : spec (.raises (.leaf (.excType [.valueError]))) (.fnRaise ⟨.keyboardInterrupt, 0⟩) = some (.raised .keyboardInterrupt) := by decide
 
